@@ -497,7 +497,11 @@ class Extractor:
                 sig = apply_rules(sig, [r for r in val.split() if r in ("R12",)], hits)
         for k, v in hits.items():
             self.meta["rule_hits"][k] = self.meta["rule_hits"].get(k, 0) + v
+        mraw = mask(raw)
+        callees = sorted(set(re.findall(r"\b([A-Za-z_][A-Za-z_0-9]*)\s*(?:::\s*<[^>]*>\s*)?\(", mraw)) |
+                         set(m_ + "!" for m_ in re.findall(r"\b([A-Za-z_][A-Za-z_0-9]*)!", mraw)))
         self.meta["functions"].append({
+            "callees": callees, "closures": len(closures(raw[raw.find("{"):])),
             "fn": fname, "src": src, "impl": impl_rx, "mod": modpath,
             "sha256": hashlib.sha256(raw.encode()).hexdigest()[:16],
             "lines": raw.count("\n") + 1, "rules": hits})
@@ -513,7 +517,8 @@ class Extractor:
                 raise TemplateError("fn %s: only extra ensures may be combined with contract: file" % fname)
             contract_block = contract_block.rstrip() + "\n" + "".join("        %s,\n" % v for v in extra)
             ctext = ""
-        owner = re.findall(r"[A-Za-z_][A-Za-z_0-9]*", impl_rx.replace("nom_derive", "").replace("Parse", ""))
+        tail = impl_rx.rsplit(" for ", 1)[-1]
+        owner = re.findall(r"[A-Za-z_][A-Za-z_0-9]*", tail)
         owner = owner[-1] if owner and impl_rx != "-" else ""
         label = (owner + "::" if owner else "") + fname
         self.meta["functions"][-1]["label"] = label
